@@ -57,8 +57,8 @@ def block_plan(variant, quick, only_prec):
         # dip in the thorough tier through fourth order: the x*x term of the
         # Taylor series of S^(-1/2) first contributes there (classes with two
         # indices of one kind; defect fixed in /repo, see findings)
-        plan.append((c[0], c[0], 2 if quick else
-                     (4 if variant == "dip" else 3)))
+        plan.append((c[0], c[0], (4 if variant == "ip" else 2) if quick
+                     else (4 if variant in ("dip", "ip") else 3)))
         plan.append((c[1], c[1], 0 if quick else 1))
     plan += [(c[0], c[1], 2), (c[1], c[0], 2)]
     if not quick and len(c) > 2:
@@ -166,7 +166,7 @@ def run(ctx):
                                  kind=f"overlap_isr:{variant}")
                     # precursor overlap symmetric
                     if bs == ks and order <= (2 if quick and not only_prec
-                                              else 3):
+                                              else 3) and order <= 3:
                         try:
                             s1 = isr.overlap_precursor(order, f"{bs},{ks}",
                                                        f"{ib},{ik}")
